@@ -195,6 +195,9 @@ func C19Scenario(tier string) *engine.Scenario {
 			CompleteNth(1, 0), CompleteNth(1, 0),
 			fixed(Tx("store", "store(22)", StoreMsg(w, StoreP{Signer: world.O, Relayer: world.G, Gateway: world.G, DataId: world.Data2, CommitId: world.Data2, Size: 1000, Replica: 1, Duration: 7200, Timeout: 100}))),
 			CompleteNth(2, 0))
+		st = append(st,
+			fixed(Tx("store", "store(33,r2)", StoreMsg(w, StoreP{Signer: world.O, Relayer: world.G, Gateway: world.G, DataId: "33333333-3333-3333-3333-333333333333", CommitId: "33333333-3333-3333-3333-333333333333", Size: 1000, Replica: 2, Duration: 3600, Timeout: 1000}))),
+			CompleteNth(3, 0))
 		s3 := w.A(world.S3)
 		st = append(st, fixed(Tx("create", "create(S3)", &nodetypes.MsgCreate{Creator: s3.S()})),
 			fixed(Tx("reset", "reset(S3,full)", &nodetypes.MsgReset{Creator: s3.S(), Status: FullStatus})),
@@ -214,13 +217,14 @@ func C19Scenario(tier string) *engine.Scenario {
 				}
 			}
 		}
-		s1, s2 := w.A(world.S1).S(), w.A(world.S2).S()
+		s1, s2, s3 := w.A(world.S1).S(), w.A(world.S2).S(), w.A(world.S3).S()
+		o3, _ := a.OrderKeeper.GetOrder(ctx, 3)
 		type variant struct {
 			name string
 			f    saotypes.Fault
 			prov string
 		}
-		for _, accused := range []string{s1, s2} {
+		for _, accused := range []string{s1, s2, s3} {
 			other := s1
 			if accused == s1 {
 				other = s2
@@ -242,6 +246,10 @@ func C19Scenario(tier string) *engine.Scenario {
 			}
 			for _, id := range o2.Shards {
 				vs = append(vs, variant{fmt.Sprintf("exact-o2-s%d", id), saotypes.Fault{DataId: world.Data2, OrderId: 2, ShardId: id, CommitId: "zz", Provider: accused}, accused})
+			}
+			// order 3 is only partly stored: one of its shards is still waiting for its provider
+			for _, id := range o3.Shards {
+				vs = append(vs, variant{fmt.Sprintf("exact-o3-s%d", id), saotypes.Fault{DataId: o3.DataId, OrderId: 3, ShardId: id, CommitId: "zz", Provider: accused}, accused})
 			}
 			for _, ri := range []int{world.W, world.Q, world.G, world.X} {
 				for _, v := range vs {
@@ -272,6 +280,11 @@ func C19Scenario(tier string) *engine.Scenario {
 		for _, id := range o1.Shards {
 			if sh, ok := a.OrderKeeper.GetShard(ctx, id); ok && sh.Status == ordertypes.ShardMigrating {
 				out = append(out, CompleteOp(w, 1, sh))
+			}
+		}
+		for _, id := range o3.Shards {
+			if sh, ok := a.OrderKeeper.GetShard(ctx, id); ok && sh.Status == ordertypes.ShardWaiting {
+				out = append(out, CompleteOp(w, 3, sh))
 			}
 		}
 		out = append(out, AdvanceOps(w, ctx, false, 0)...)
